@@ -172,6 +172,11 @@ def check(ctx: Ctx) -> None:
             ok = a_ is not None and want in fl.atoms(a_, c2)
             ctx.check(ok, 'C05.R3', f, f'classify-arg:{pname}', f'normalize_merchant({pname}=…) receives this row\'s {pname}',
                       f'normalize_merchant is not given this row\'s {pname} ({src(a_) if a_ is not None else "omitted"!r})', c2)
+        # rules compare `date` with ISO date strings: the classifier must be given a date, not the datetime strptime returns
+        a_ = arg_of(c2, nmf, 'txn_date')
+        ok = a_ is not None and any(o in ('call:date', 'callq:date.date') or o.endswith('.date') and o.startswith('callq:') for _l, ops in fl.leaf_paths(a_, c2) for o in ops)
+        ctx.check(ok, 'C05.R3', f, 'classify-arg:txn_date-is-a-date', 'normalize_merchant(txn_date=…) receives a date (…strptime(…).date())',
+                  f'normalize_merchant is given {src(a_) if a_ is not None else None!r}, a datetime: `date >= "2025-01-01"` in a rule then compares a datetime with a date and the rule is skipped', c2)
 
     # ---------------- R4 sign
     defs = cfg.defs_reaching(at, 'amount')
